@@ -68,12 +68,36 @@ def make_stream(cfg: dict, options: pstreams.SerializerOptions | None = None):
     return cls.for_rdflib(options=options)
 
 
-def write_frames(frames: Iterable, out, delimited: bool) -> int:
+def write_frames(frames: Iterable, out, delimited: bool, collect: bool = False) -> int:
+    """Write frames as they come, or (collect=True) first gather them in a list like a batching caller would."""
     n = 0
+    if collect:
+        frames = list(frames)
     for fr in frames:
         (write_delimited if delimited else write_single)(fr, out)
         n += 1
     return n
+
+
+def serialize_groups(cfg: dict, groups: list, ns_per_group: list | None = None) -> bytes:
+    """Several sinks/stores written through ONE stream with grouped_stream_to_frames / _to_file."""
+    out = io.BytesIO()
+    options = make_options(cfg)
+    nss = ns_per_group or [[] for _ in groups]
+    dataset = cfg["physical"] != 1
+    if cfg["integration"] == "generic":
+        sinks = (generic_sink_of(g, n) for g, n in zip(groups, nss))
+        if cfg.get("via") == "file":
+            gser.grouped_stream_to_file(sinks, out, options=options)
+        else:
+            write_frames(gser.grouped_stream_to_frames(sinks, options=options), out, True, cfg.get("collect", False))
+    else:
+        stores = (rdflib_store_of(g, n, dataset=dataset) for g, n in zip(groups, nss))
+        if cfg.get("via") == "file":
+            rser.grouped_stream_to_file(stores, out, options=options)
+        else:
+            write_frames(rser.grouped_stream_to_frames(stores, options=options), out, True, cfg.get("collect", False))
+    return out.getvalue()
 
 
 def generic_sink_of(stmts: list, ns: list | None = None, identifier: Any = None):
@@ -123,17 +147,17 @@ def serialize(cfg: dict, stmts: list, ns: list | None = None) -> bytes:
             gser.flat_stream_to_file((conv(s) for s in stmts), out, options=make_options(cfg))
         elif entry == "flat_frames":
             frames = gser.flat_stream_to_frames((conv(s) for s in stmts), options=make_options(cfg))
-            write_frames(frames, out, delimited)
+            write_frames(frames, out, delimited, cfg.get("collect", False))
         elif entry == "grouped_to_file":
             assert delimited
             sink = generic_sink_of(stmts, ns)
             gser.grouped_stream_to_file((s for s in [sink]), out, options=make_options(cfg))
         elif entry == "stream_frames_sink":
             stream = make_stream(cfg)
-            write_frames(gser.stream_frames(stream, generic_sink_of(stmts, ns)), out, delimited)
+            write_frames(gser.stream_frames(stream, generic_sink_of(stmts, ns)), out, delimited, cfg.get("collect", False))
         elif entry == "stream_frames_gen":
             stream = make_stream(cfg)
-            write_frames(gser.stream_frames(stream, (conv(s) for s in stmts)), out, delimited)
+            write_frames(gser.stream_frames(stream, (conv(s) for s in stmts)), out, delimited, cfg.get("collect", False))
         elif entry == "sink_serialize":
             generic_sink_of(stmts, ns).serialize(out)
         else:
@@ -152,18 +176,18 @@ def serialize(cfg: dict, stmts: list, ns: list | None = None) -> bytes:
             rser.flat_stream_to_file((conv(s) for s in stmts), out, options=make_options(cfg))
         elif entry == "flat_frames":
             frames = rser.flat_stream_to_frames((conv(s) for s in stmts), options=make_options(cfg))
-            write_frames(frames, out, delimited)
+            write_frames(frames, out, delimited, cfg.get("collect", False))
         elif entry == "grouped_to_file":
             assert delimited
             store = rdflib_store_of(stmts, ns, dataset=cfg["physical"] != 1, empty_graphs=cfg.get("empty_graphs"))
             rser.grouped_stream_to_file((s for s in [store]), out, options=make_options(cfg))
         elif entry == "stream_frames_gen":
             stream = make_stream(cfg)
-            write_frames(rser.stream_frames(stream, (conv(s) for s in stmts)), out, delimited)
+            write_frames(rser.stream_frames(stream, (conv(s) for s in stmts)), out, delimited, cfg.get("collect", False))
         elif entry == "stream_frames_store":
             stream = make_stream(cfg)
             store = rdflib_store_of(stmts, ns, dataset=cfg["physical"] != 1, empty_graphs=cfg.get("empty_graphs"))
-            write_frames(rser.stream_frames(stream, store), out, delimited)
+            write_frames(rser.stream_frames(stream, store), out, delimited, cfg.get("collect", False))
         else:
             raise ValueError(entry)
     return out.getvalue()
